@@ -68,7 +68,9 @@ def _case(draw, tier):
         "remap_to": draw(sampled_from(["nodes", "edge centers", "face centers"])),
         "coord_type": draw(sampled_from(["spherical", "cartesian"])),
         "method": draw(sampled_from(["nn", "nn", "idw"])),
-        "k": draw(st.integers(2, 8)),
+        "k": draw(sampled_from([2, 3, 4, 5, 6, 7, 8, 8, 8])),
+        # arguments equal to the documented defaults (remap_to="face centers", coord_type="spherical", power=2, k=8) are left out
+        "defaults": draw(st.booleans()),
         "power": draw(sampled_from([0.5, 1, 2, 2, 3, 5])),
         "lead": draw(st.lists(st.integers(1, 3), max_size=2)),
         "dtype": draw(sampled_from(["float64", "float64", "float32", "int64"])),
@@ -175,7 +177,7 @@ def run_case(case, ctx):
 
     P = _positions(gs, src_mesh, kind)
     Q = _positions(gd, dst_mesh, remap_to)
-    if case.get("moved_centres") and kind == "face centers" and coord_type == "spherical" and not src_mesh.get("centers"):
+    if case.get("moved_centres") and kind == "face centers" and not src_mesh.get("centers") and case.get("radius_src") in (None, 1.0):
         # history: a first remap, then the source's face centres are moved through the public setters
         # (to the midpoint of each face's first edge); the judged remap must search the new positions
         import xarray as xr
@@ -187,6 +189,9 @@ def run_case(case, ctx):
         lon_new, lat_new = writers.lonlat_of(newP)
         gs.face_lon = xr.DataArray(lon_new, dims=["n_face"])
         gs.face_lat = xr.DataArray(lat_new, dims=["n_face"])
+        gs.face_x = xr.DataArray(newP[:, 0].copy(), dims=["n_face"])
+        gs.face_y = xr.DataArray(newP[:, 1].copy(), dims=["n_face"])
+        gs.face_z = xr.DataArray(newP[:, 2].copy(), dims=["n_face"])
         P = newP
         if gd is gs and remap_to == "face centers":
             Q = newP
@@ -213,7 +218,10 @@ def run_case(case, ctx):
         return True
 
     if case["method"] == "nn":
-        res = da.remap.nearest_neighbor(gd, remap_to=remap_to, coord_type=coord_type)
+        nkw = dict(remap_to=remap_to, coord_type=coord_type)
+        if case.get("defaults"):
+            nkw = {a: v for a, v in nkw.items() if v != {"remap_to": "face centers", "coord_type": "spherical"}[a]}
+        res = da.remap.nearest_neighbor(gd, **nkw)
         if not dims_grid(res, "nearest_neighbor"):
             return fails
         ctx.ev("input_unchanged")
@@ -249,11 +257,16 @@ def run_case(case, ctx):
 
     # ---- inverse distance weighted
     k = max(2, min(case["k"], nn_, n_src))
+    if case.get("defaults") and min(nn_, n_src) >= 8 and case["seed"] % 2 == 0:
+        k = 8  # the documented default, left out of the call below
     if k < 2 or n_src < 2:
         ctx.label("no-verdict:too-few-sources")
         return fails
     power = case["power"]
     kw = dict(remap_to=remap_to, coord_type=coord_type, power=power, k=k)
+    if case.get("defaults"):
+        kw = {a: v for a, v in kw.items() if v != {"remap_to": "face centers", "coord_type": "spherical", "power": 2, "k": 8}[a]}
+        ctx.label("idw-defaults-omitted:" + ",".join(sorted(set(("remap_to", "coord_type", "power", "k")) - set(kw))))
     res = da.remap.inverse_distance_weighted(gd, **kw)
     if not dims_grid(res, "inverse_distance_weighted"):
         return fails
@@ -282,7 +295,8 @@ def run_case(case, ctx):
             e = int(outside[np.argmax(np.abs(w[outside]))])
             bad("idw_convex", "weight-outside-k-nearest", f"destination {remap_to} {j}: source {kind} {e} at {D[j, e]:.6f} rad has weight {w[e]!r} but the k={k} nearest end at {kth:.6f} rad")
             break
-        inside = np.nonzero(D[j] < kth - GAP)[0] if not amb else np.array([], int)
+        # (when the k-th and the (k+1)-th distance are apart, the k nearest are a definite set, the k-th itself included)
+        inside = np.nonzero(D[j] <= kth)[0] if not amb else np.nonzero(D[j] < kth - GAP)[0]
         if np.any(w[inside] <= 0):
             bad("idw_convex", "nearest-has-no-weight", f"destination {j}: one of the k={k} nearest sources has weight 0")
             break
